@@ -6,7 +6,8 @@ set -u
 ID="$1"; FILE="$2"; OLD="$3"; NEW="$4"; shift 4
 COPY=/tmp/mosmut
 mkdir -p $COPY
-rsync -a --delete --exclude target --exclude .git /repo/ $COPY/repo/
+rsync -rlpc --delete --exclude target --exclude .git /repo/ $COPY/repo/
+touch $COPY/repo/mos-core/src/lib.rs $COPY/repo/mos/src/main.rs
 python3 - "$COPY/repo/$FILE" "$OLD" "$NEW" <<'PY'
 import sys
 p,old,new=sys.argv[1:4]
